@@ -1630,6 +1630,9 @@ func (kmc *KeystoreManagerForPoC) ChangeRemark(accountID, newRemark string) erro
 		if err != nil {
 			return err
 		}
+		addrManager.mu.Lock()
+		addrManager.remark = newRemark
+		addrManager.mu.Unlock()
 		return nil
 	} else {
 		logging.CPrint(logging.ERROR, "account not exists",
